@@ -1,6 +1,6 @@
-(* closedb decides Closed (Model/Closure.v). *)
+(* closedb decides Closed (Model/FcClosure.v). *)
 From Coq Require Import Arith.
-From DG Require Import Base.Util Base.Reach Model.Lattice Model.Closure.
+From DG Require Import Base.Util Base.Reach Model.Lattice Model.FcClosure.
 
 Lemma dedup_length_le : forall l, (length (dedup l) <= length l)%nat.
 Proof.
